@@ -4,6 +4,7 @@ import (
 	"fmt"
 	"github.com/advancedclimatesystems/gonnx"
 	"math"
+	"sort"
 	"strings"
 
 	"verif/harness/gen"
@@ -323,6 +324,21 @@ func genBatchModel(r *gen.R) *batchModel {
 	outs = append(outs, cur)
 	outs = dedup(outs)
 	desc, _ := p.structure()
+	if r.Chance(0.06) {
+		// a non-finite weight (a diverged training run): what it does to a sample's result is the
+		// operators' business - it must do the same alone and in a batch (0 x Inf included)
+		var fl []int
+		for i, it := range p.Inits {
+			if it.T != nil && it.T.DT == ref.F32 && len(it.T.Bits) > 0 {
+				fl = append(fl, i)
+			}
+		}
+		if len(fl) > 0 {
+			t := p.Inits[fl[r.Intn(len(fl))]].T
+			t.Bits[r.Intn(len(t.Bits))] = ref.EncF(ref.F32, r.PickFloat(math.Inf(1), math.Inf(-1), math.NaN()))
+			desc += " [one non-finite weight]"
+		}
+	}
 	inName := p.Inputs[0].Name
 	inShape := p.Values[inName].Shape
 	inAxis := p.BatchAxis[inName]
@@ -414,8 +430,42 @@ func c16Run(c *Ctx) {
 		}
 	}
 	feed := spec.Feed(r, N)
+	special := ""
+	if !spec.Heavy && r.Chance(0.12) {
+		// one or two samples made of unusual values (NaN, infinities, huge magnitudes, exact and
+		// signed zeros): whatever they produce, the OTHER samples' results do not change, and
+		// their own results are the same alone and in the batch
+		var names []string
+		for k, v := range feed {
+			if ax, ok := spec.BatchAxis[k]; ok && ax >= 0 && v.DT == ref.F32 && ax < v.Rank() && v.Shape[ax] == N {
+				names = append(names, k)
+			}
+		}
+		sort.Strings(names)
+		if len(names) > 0 {
+			k := names[r.Intn(len(names))]
+			t := feed[k].Clone()
+			ax := spec.BatchAxis[k]
+			inner := 1
+			for _, d := range t.Shape[ax+1:] {
+				inner *= d
+			}
+			vals := []float64{math.NaN(), math.Inf(1), math.Inf(-1), -3e9, 3e9, 1e30, -1e30, 0, math.Copysign(0, -1), 1e-30, 88.8, -104}
+			for n := r.Range(1, 2); n > 0; n-- {
+				row := r.Intn(N)
+				for i := range t.Bits {
+					if (i/inner)%N == row && r.Chance(0.7) {
+						t.Bits[i] = ref.EncF(ref.F32, vals[r.Intn(len(vals))])
+					}
+				}
+				special += fmt.Sprintf(" sample %d of %q", row, k)
+			}
+			feed[k] = t
+			c.Count("batches-with-samples-of-unusual-values", 1)
+		}
+	}
 	relation := r.PickStr("decompose", "permute", "subselect")
-	c.SetCase("model %s | batch %d | relation %s | feed %s", trunc(bm.desc, 700), N, relation, feedString(feed))
+	c.SetCase("model %s | batch %d | relation %s | unusual values in%s | feed %s", trunc(bm.desc, 700), N, relation, special, feedString(feed))
 	c.Nontrivial(fmt.Sprintf("%s|%d|%s", bm.desc, N, relation))
 	c.Count("relation:"+relation, 1)
 	// in half of the cases the batch and its parts are evaluated on ONE loaded model
@@ -517,7 +567,7 @@ func c16Run(c *Ctx) {
 			}
 			for i := range want.Bits {
 				a, b := want.F(i), p.F(i)
-				if a == b {
+				if a == b || (a != a && b != b) {
 					continue
 				}
 				if d := math.Abs(a - b); d > 2e-4*(1+math.Abs(a)) || d != d {
